@@ -11,6 +11,7 @@ Every job runs in a child forked from this process *before any metamodel was cre
 Nothing in textX is patched except TextXMetaModel.__init__, wrapped only to stamp a creation
 serial on each metamodel object (used to report which metamodel owns the shared base rules).
 """
+import hashlib
 import io
 import json
 import os
@@ -60,6 +61,8 @@ Item: 'item' name=ID v=INT;
 }
 
 serial = [0]
+EV = []          # events of the current operation: R replace, r restore, E end of construction, M model processor raised
+OPENED = []      # files opened (read) during the current operation
 _orig_init = mmod.TextXMetaModel.__init__
 
 
@@ -70,6 +73,44 @@ def _stamped_init(self, *a, **k):
 
 
 mmod.TextXMetaModel.__init__ = _stamped_init
+
+import builtins  # noqa: E402
+import textx.model as tmodel  # noqa: E402
+
+_orig_open = builtins.open
+
+
+def _rec_open(file, *a, **k):
+    if isinstance(file, str) and (not a or "r" in str(a[0])) and "w" not in str(k.get("mode", "r")):
+        OPENED.append(os.path.basename(file))
+    return _orig_open(file, *a, **k)
+
+
+_orig_end = tmodel._end_model_construction
+
+
+def _rec_end(model):
+    EV.append("E")
+    return _orig_end(model)
+
+
+tmodel._end_model_construction = _rec_end
+
+
+def record_parser_events(mm):
+    """Record (not change) the calls that instrument / restore user classes; the parser class is per metamodel."""
+    cls = type(mm._parser_blueprint)
+    rep, res = cls._replace_user_attr_methods, cls._restore_user_attr_methods
+
+    def _rep(self):
+        EV.append("R")
+        return rep(self)
+
+    def _res(self):
+        EV.append("r")
+        return res(self)
+    cls._replace_user_attr_methods = _rep
+    cls._restore_user_attr_methods = _res
 
 
 # ------------------------------------------------------------------ user classes (one set per grammar, shared by
@@ -179,6 +220,7 @@ def model_processors(names):
         elif n == "raise":
             def mraise(model, mm):
                 if any(getattr(i, "name", None) == "mperr" for i in getattr(model, "items", []) or []):
+                    EV.append("M")
                     raise TextXSemanticError("model processor says no")
             out.append(mraise)
     return out
@@ -297,7 +339,7 @@ def blueprint_digest(p):
         else:
             v = getattr(p, f)
             d.append("%s=%s" % (f, v if isinstance(v, (bool, int, str, type(None))) else "%s%d" % (type(v).__name__, len(v)) if hasattr(v, "__len__") else type(v).__name__))
-    return ";".join(d)
+    return hashlib.sha1(";".join(d).encode()).hexdigest()[:10]
 
 
 def state_digest(slots, used_grammars):
@@ -354,6 +396,7 @@ def build_mm(cfg, tmp):
         mm = metamodel_from_file(path, **kw)
     else:
         mm = metamodel_from_str(GRAMMARS[g], **kw)
+    record_parser_events(mm)
     if cfg.get("objp"):
         mm.register_obj_processors(obj_processors(cfg["objp"]))
     for p in model_processors(cfg.get("modelp", [])):
@@ -373,6 +416,8 @@ def run_job(job, tmp):
     used = set()
     out = []
     for op in job["ops"]:
+        del EV[:]
+        del OPENED[:]
         try:
             if op["op"] == "new":
                 cfg = job["cfgs"][op["cfg"]]
@@ -399,7 +444,8 @@ def run_job(job, tmp):
             if isinstance(e, (KeyboardInterrupt, SystemExit)):
                 raise
             res = {"err": dump_err(e, tmp)}
-        out.append({"res": res, "st": state_digest(slots, used)})
+        out.append({"res": res, "st": state_digest(slots, used), "ev": "".join(EV),
+                    "opened": sorted(set(f for f in OPENED if not f.startswith("grammar_")))})
     return out
 
 
@@ -412,6 +458,7 @@ def forked(job, root):
             os.close(r)
             tmp = tempfile.mkdtemp(prefix="j", dir=root)
             os.chdir(tmp)
+            builtins.open = _rec_open
             sys.stdout = io.StringIO()
             try:
                 data = json.dumps(run_job(job, tmp))
@@ -436,6 +483,9 @@ def main():
     payload = json.load(sys.stdin)
     assert not lang.textX_parsers, "runner process is not pristine"
     root = tempfile.mkdtemp(prefix="c16_")
+    import gc
+    gc.collect()
+    gc.freeze()          # children do not touch (copy) the parent's objects when collecting
     try:
         outs = [forked(j, root) for j in payload["jobs"]]
     finally:
